@@ -4,7 +4,7 @@ from gen import regs, datasets, frame, templates
 from props import c01
 
 ID = "C05"
-THEOREMS = ["Bufr.C05.C05_decode_total", "Bufr.C05.C05_expansion_bounded", "Bufr.C05.C05_reader_in_bounds"]
+THEOREMS = ["Bufr.C05.C05_decode_total", "Bufr.C05.C05_expansion_bounded", "Bufr.C05.C05_reader_in_bounds", "Bufr.C05.C05_element_shape"]
 RULE = ("valid messages of the C01/C02 space (own encoder) mutated at the data-section level (truncation at every "
         "octet class, bit flips, random tails, wrong subset counts incl. 0 and 65535, compression flag toggled, "
         "descriptor lists with unknown/ill-formed/huge-replication descriptors) and at the message level (section "
@@ -138,6 +138,10 @@ def compare(scn, lscn, cr, lr):
             bad = len(f) >= 3 and f[-3] == "ok" and f[-2] == "1"
         elif bad and l.startswith("dd.vals"):
             c_out[i] = l_out[i] = "-"
+        elif bad and l.startswith("dd.list"):
+            # the flags of nodes the decoder never reached are not modelled on this path
+            strip = lambda o: " ".join("/".join(f for k, f in enumerate(n.split("/")) if k not in (1, 7, 8)) for n in o.split())
+            c_out[i], l_out[i] = strip(c_out[i]), strip(l_out[i])
     return cmp0(scn, (c_out, cr[1]), (l_out, lr[1]), None)
 
 def oracle(scn, outs):
